@@ -718,7 +718,11 @@ impl Check for C07 {
         let model = case.model();
         let mut input = String::new();
         if large {
-            input = gen::gen_long_input(d, &model, 60, 400);
+            input = if d.chance(16) {
+                gen::gen_huge_input(d, &model)
+            } else {
+                gen::gen_long_input(d, &model, 60, 400)
+            };
         }
         let pieces = 1 + d.below(5);
         for _ in 0..pieces {
@@ -804,6 +808,7 @@ impl Check for C07 {
         );
         st.flag("four_byte_char", text.chars.iter().any(|c| c.len_utf8() == 4));
         st.flag("multi_mode", case.modes.len() > 1);
+        st.flag("input_beyond_65535_bytes", input.len() > 65_535);
 
         let check_span = |t: &Tok, prev_end: usize, what: &str| -> Result<(), Failure> {
             let bad = if t.end <= t.start {
